@@ -28,7 +28,10 @@ CLAIM = dict(
           "code (the geometry arithmetic sits in headers that need the CUDA/HIP/SYCL/OpenCL toolkits) are neither modelled nor "
           "corresponded. That result == host evaluation is C14's extraction theorem; its finding (non-leaf operand at position >= 1) is inherited."),
     ref="5.13", technique="Coq proof (invariant over an arbitrary schedule) + differential correspondence of a host simulation", extra="")
-RULE = ("36 fixed view compositions x routes {cuda (device_array), ocl (create_array views), cudaN (fixed DIM), hip (attributes "
+RULE = ("element types x values: every composition runs with int64 (values beyond 2^24 and 2^53 with odd low bits), with a narrow "
+        "int type (int16 or int32 up to the range ends, kept where the host result is still exact) and with float64 values NOT "
+        "representable in binary32 (0.1-like fractions, 1+2^-40, > 2^24 odd, subnormal, near-max); float64 travels as 64-bit "
+        "patterns and is compared bit for bit. 36 fixed view compositions x routes {cuda (device_array), ocl (create_array views), cudaN (fixed DIM), hip (attributes "
         "through array::as_static)}; 26 fixed view compositions (depth 1..3; 11 with run-time attributes: activation parameters in {-1.5,-0.25,0.25,0.5,0.75,2.5,"
         "7.5,10}, clamp pairs, shrink thresholds, reduction axis/initial, on data with negatives and out-of-clamp values; 6 "
         "rank-raising views with output rank 5..8 and distinct extents) x operand shapes dim 1..4 x operand styles (device_array DIM=0, fixed DIM, "
